@@ -42,6 +42,8 @@ inductive MutKind where
   | manifest     -- manifest.json differs (bytes or a field edit)
   | archive      -- the encrypted archive differs
   | key          -- wrong or malformed key material
+  | semantic     -- a fragment re-encoded and re-hashed (manifest digest / sizes updated) so that an edge endpoint
+                 -- exists in no node fragment of ITS graph, or a node id occurs twice in its graph
 deriving DecidableEq, Repr
 
 structure LoadObs where
@@ -63,6 +65,7 @@ def judgeLoad (k : MutKind) (o : LoadObs) : Option String :=
     | .fragment => some "fragment-mutation-accepted"      -- the digest binds every fragment byte
     | .archive => some "archive-mutation-accepted"        -- AEAD + header hash + framing bind every archive byte
     | .key => some "opened-with-wrong-key"
+    | .semantic => some "dangling-or-duplicate-accepted"   -- unreachable: such a graph cannot equal the original
 
 /-! ## (b)(c) unpack: what may be observed of the file system -/
 
@@ -112,5 +115,11 @@ def judgeUnpack (c : UnpackCase) (o : UnpackObs) : Option String :=
   else match explicitAccepted [] c.explicit with
     | none => some "hostile-entry-accepted"
     | some rels => if rels.all (fun r => o.created.contains r) then none else some "accepted-entry-misplaced"
+
+/-- a hostile encrypted archive whose fragment bytes do not match the manifest (whatever spelling the manifest
+uses for the fragment's path) must not be accepted, let alone promoted; otherwise the usual unpack rules -/
+def judgeHostileArchive (altered : Bool) (c : UnpackCase) (o : UnpackObs) : Option String :=
+  if altered ∧ o.ok then some "unverified-fragment-promoted"
+  else judgeUnpack c o
 
 end Dawgs.C20
